@@ -369,7 +369,12 @@ Definition beam_agree (c : case) : bool :=
     end
   else true.
 
-Definition agree (c : case) : bool := greedy_agree c && beam_agree c.
+(* Tie-breaking of arg_max is a policy the property does not constrain ("the arg-max path" is any
+   path of row maxima): the alarm-raising comparison accepts every tie-break (greedy_ok); whether
+   the implementation still uses the tie-break modelled by argmax_row (last maximum) is reported
+   as an informational count through greedy_agree. *)
+Definition agree (c : case) : bool := greedy_ok c && beam_agree c.
+Definition greedy_tiebreak_as_modelled (c : case) : bool := greedy_agree c.
 Definition prop_ok (c : case) : bool := greedy_ok c && beam_ok c.
 (* counted by the check: cases whose beam part is skipped for model/implementation comparison *)
 Definition is_decisive (c : case) : bool := decisive c.
